@@ -49,7 +49,7 @@ ID = "C03"
 LEAN_TARGETS = ["RV.C03.Props", "RV.C03.Audit"]
 AUDIT = "RV/C03/Audit.lean"
 DRIVER = "drv_c03"
-CASES = {"quick": 260, "thorough": 12000, "search": 3000}
+CASES = {"quick": 600, "thorough": 12000, "search": 3000}
 FORMATS = ["nt", "turtle", "longturtle", "n3", "xml", "pretty-xml", "json-ld", "hext"]
 PARSE_AS = {"pretty-xml": "xml", "longturtle": "turtle"}
 FMT_TIMEOUT_S = 4.0
